@@ -90,6 +90,8 @@ def checkSched (c : Case) : VM Unit := do
     | _, _ => pure ()
     pre := some post
   vstat "sched.ops" nOps
+  vstat "c09.networks" 1
+  vstat "c09.nethyps" (if netHypsB nw then 1 else 0)
   vstat "sched.changed" nChanged
   vstat "sched.op-kinds" kinds.length
   if let some p := pre then
